@@ -169,6 +169,12 @@ impl<C: Ciphersuite> Lab<C> for ConcLab<C> {
     fn expect_reject(&mut self, _mark: u64, accepted: bool, what: &str) -> bool {
         self.rec(!accepted, &format!("{what}: input was accepted where rejection is required"))
     }
+    fn ne_generic_s(&mut self, a: Scalar<C>, b: Scalar<C>, what: &str) -> bool {
+        self.rec(a != b, what)
+    }
+    fn ne_generic_e(&mut self, a: Element<C>, b: Element<C>, what: &str) -> bool {
+        self.rec(a != b, what)
+    }
     fn holds_eq_s(&mut self, a: Scalar<C>, b: Scalar<C>) -> Option<bool> {
         Some(a == b)
     }
